@@ -12,7 +12,7 @@ RULE = ('for every transfer type/mode (upload x 3 source kinds, download x 4 des
         'multipart/ranged) a fault-free dry run lists the boundary events (S3 calls, request-body reads, response-body reads, '
         'source reads, destination open/write/close/rename, on_queued, each on_progress); then one run per (event, '
         'before/after/mid effect, fault kind), plus retry-budget exhaustion per range and (thorough) pairs of faults; '
-        'fault kinds include the library's own exception types (CancelledError = concurrent.futures.CancelledError, FatalError) raised by steps of a transfer that was never cancelled; NonThreadedExecutor and duck-typed subscriber bases; non-trivial = the planned fault was actually raised into library code and the outcome oracle compared result() '
+        'fault kinds include the exception types the library itself defines (CancelledError = concurrent.futures.CancelledError, FatalError) raised by steps of a transfer that was never cancelled; NonThreadedExecutor and duck-typed subscriber bases; non-trivial = the planned fault was actually raised into library code and the outcome oracle compared result() '
         'with the raised-fault log; distinct = (scenario shape incl. fault site, interleaving signature)')
 ASSUMPTIONS = [
     'fault kinds are Exception subclasses, plus a small separate BaseException family that re-finds known finding F9',
